@@ -126,6 +126,28 @@ def gen_space_retry(rng):
     return spec
 
 
+def gen_samename(rng, hps):
+    """one name declared in two or three mutually exclusive branches, with the same or with a different domain in each, and
+    further entries below it (implementation-level family: the model and its theorems assume distinct names)"""
+    ks = rng.sample(["p", "q", "r"], rng.randint(2, 3))
+    hps.Choice("m", ks, default=rng.choice(ks + [None]))
+    mode = rng.choice(["int", "choice", "same", "bool"])
+    for i, k in enumerate(ks):
+        with hps.conditional_scope("m", [k]):
+            if mode == "int": lo = [1, 100, 1000][i]; hps.Int("u", lo, lo + rng.randint(1, 3))
+            elif mode == "choice": hps.Choice("u", [10 * i + j for j in range(rng.randint(2, 3))])
+            elif mode == "same": hps.Choice("u", [0, 1, 2])
+            else: hps.Boolean("u")
+            if rng.random() < 0.4:
+                hps.Int("y%d" % i, 0, rng.randint(1, 2))
+            if rng.random() < 0.5:
+                dom = list([h for h in hps.space if h.name == "u"][-1].values)
+                with hps.conditional_scope("u", rng.sample(dom, rng.randint(1, max(1, len(dom) - 1)))):
+                    hps.Boolean("z%d" % i)
+    if rng.random() < 0.3:
+        hps.Boolean("t")
+
+
 def run_case(seed, dynamic=False, family=None):
     warnings.filterwarnings("ignore")
     import keras_tuner as kt
@@ -133,6 +155,8 @@ def run_case(seed, dynamic=False, family=None):
     from keras_tuner.tuners import gridsearch
     rng = random.Random(seed)
     for _attempt in range(50):
+        if family == "samename":
+            spec = []; full = hpm.HyperParameters(); gen_samename(rng, full); break
         spec = gen_space(rng) if family != "retry" else gen_space_retry(rng)
         full = hpm.HyperParameters(); objs = []
         declare(full, spec, objs, rng)
@@ -144,7 +168,9 @@ def run_case(seed, dynamic=False, family=None):
         k = rng.randint(0, max(0, len(spec) - 1)) if family != "retry" else 1
         upfront = set(range(k))
     hps = hpm.HyperParameters()
-    if upfront is None:
+    if family == "samename":
+        hps = full.copy()
+    elif upfront is None:
         declare(hps, spec, [], rng)
     else:
         declare(hps, spec, [None] * len(spec), rng, only=upfront)
@@ -175,7 +201,7 @@ def run_case(seed, dynamic=False, family=None):
             if tn in held and rng.random() < 0.7:
                 t = held.pop(tn); r = rng.random()
                 will_retry = 0.7 <= r < 0.7 + p_invalid and o._run_times[t.trial_id] + 1 <= cfg["max_retries"]
-                if dynamic and not (family == "retry" and will_retry and rng.random() < 0.6):
+                if dynamic and family != "samename" and not (family == "retry" and will_retry and rng.random() < 0.6):
                     # the build function declares the whole tree. In the retry family a crashing run that will be retried may die
                     # before it gets there; the last run of a trial always declares (uniform discovery: otherwise the grid cannot
                     # know the combinations below a trial that never told it about them)
@@ -283,7 +309,7 @@ def run(ctx):
             c = corpus[i + len(corpus)]; seed, dyn, fam = c["seed"], c["dynamic"], c.get("family")
         else:
             seed = ctx.rng.randint(0, 2 ** 40); dyn = i >= n
-            fam = "retry" if dyn and (i - n) % 2 == 1 else None
+            fam = "retry" if dyn and (i - n) % 2 == 1 else "samename" if dyn and (i - n) % 6 == 0 else None
         cfg, ops, obs, viol, info = run_case(seed, dynamic=dyn, family=fam)
         stats["dynamic" if dyn else "static"] += 1; stats["ops"] += len(ops); stats["trials"] += info["ntrials"]
         stats["reloads"] += sum(1 for o in ops if o[0] == "reload"); stats["workers"][info["W"]] = stats["workers"].get(info["W"], 0) + 1
@@ -311,7 +337,7 @@ def run(ctx):
                 rule="spaces of 1-4 entries (Int, stepped Int, stepped log Int, Choice with default in or out of first place, Boolean, Fixed) with conditions on earlier "
                      "entries nested to depth 3; 1-3 workers with random finishing orders, COMPLETED / INVALID (retried) / FAILED outcomes, save+reload at quiet points; run until "
                      "every worker is told STOPPED; the static cases are compared step by step with the model, the dynamic ones (part of the tree declared only inside the "
-                     "trials; half of them with a non-ascending Choice up front, 2-4 workers, retries and runs that crash before declaring anything) are checked on the implementation; non-trivial = distinct (space, schedule) with >= 3 trials",
+                     "trials; a sixth of them instead declare one name in several exclusive branches, with equal or different domains; half of them with a non-ascending Choice up front, 2-4 workers, retries and runs that crash before declaring anything) are checked on the implementation; non-trivial = distinct (space, schedule) with >= 3 trials",
                 samples=infos[:2], failures=failures, stats=stats)
 
 
